@@ -34,6 +34,8 @@ inline J knobs_op(Rng& r, int min_fd, int max_fd) {
     k.set("chunk", chunks[r.below(10)]);
     k.set("fdlimit", r.range(min_fd, max_fd));
     k.set("heap_junk", r.chance(0.85));
+    static const int64_t oasbufs[] = {0, 0, 1, 2, 7, 64, 1000, 65536};
+    k.set("oas_buf", oasbufs[r.below(8)]);  // guarded hook: initial CBLOCK staging buffer of write_oas (0 = shipped size)
     return k;
 }
 
